@@ -149,6 +149,24 @@ def run(prog, rep, tier):
                 ok = any('state' in f for f in o.fields)
         rep.ob('R14.2', ok, 'R14.2|%s|InData-flushes-compressor' % cf.nkey, 'InData arm flushes the brotli CompressorWriter held in self.state' if ok else 'InData arm does not flush the brotli compressor', cf.loc())
 
+    # ---------------- R14.4 a chunk that was read is kept even when the stream stops right after it
+    # (the writer emits the tag of a full chunk lazily: after a flush on a chunk boundary the destination ends with the chunk and no tag)
+    lu = one_body(prog, rep, 'R14.4', 'mla', exact='layers::encrypt::EncryptionLayerInternal::load_in_cache_unauthenticated')
+    if lu is not None:
+        rte = [b for b in lu.calls() if b.term.cmethod == 'read_to_end' and b.term.ctrait == 'std::io::Read']
+        stores = [b.idx for b in lu.blocks if not b.cleanup for st in b.stmts if st.kind == 'assign' and place_fields(st.place)[-1:] == ['chunk_cache'] and st.rv.r == 'use']
+        if len(rte) != 1 or not stores:
+            rep.ob('R14.4', False, 'R14.4|%s|anchors' % lu.nkey, 'expected one chunk read_to_end and a store into chunk_cache (found %d / %d)' % (len(rte), len(stores)), lu.loc())
+        else:
+            EXACT = {'read_exact', 'read_u8', 'read_u16', 'read_u32', 'read_u64', 'read_u128', 'deserialize_from'}
+            between = lu.reachable(rte[0].term.target, removed_blocks=stores) if rte[0].term.target is not None else set()
+            bad = [b for b in lu.calls() if b.idx in between and b.term.cmethod in EXACT and b.term.ctrait in ('std::io::Read', 'byteorder::ReadBytesExt', '')
+                   and any(a.place is not None and any(f[-1] == 'inner' for f in origins(lu, [a.place[0]], through_calls=False).fields) for a in b.term.args)]
+            rep.ob('R14.4', not bad, 'R14.4|%s|tag-skip-tolerates-missing-tag' % lu.nkey,
+                   'between reading a chunk and caching it, nothing fails on a short / missing tag (the tag is skipped with a tolerant copy)' if not bad else
+                   'after the chunk data was read, %s on the inner reader fails with UnexpectedEof when fewer than %s bytes follow: the chunk already read is dropped, so data '
+                   'flushed on a chunk boundary is not recovered' % (bad[0].term.cmethod, 'TAG_LENGTH'), lu.loc(bad[0].idx) if bad else lu.loc())
+
     # ---------------- R14.3 decoder drained before end of input is reported
     rd = one_body(prog, rep, 'R14.3', 'mla', adt='layers::compress::CompressionLayerFailSafeReader', name='read', trait='std::io::Read')
     if rd is not None:
